@@ -88,6 +88,7 @@ public:
     /// report a violation of class cls for the current case; the case is abandoned at the end of the current step
     void viol(const char *cls, const char *fmt, ...) __attribute__((format(printf, 3, 4)));
     bool violated() const { return violated_; }
+    int currentTask() const { return cur_; } ///< index of the running task, -1 outside tasks
     /// prefix put in front of every violation class of the current case (set by the harness in setup())
     void setClassPrefix(const char *p) { classPrefix_ = p; }
     /// operation-level trace record (only when the case has trace=1)
